@@ -291,6 +291,18 @@ def lost_content(s0, sf):
             # a settings file may only have grown: its old bytes are a prefix of a settings file of the same name
             if any(c2 is not None and c2.startswith(c) and os.path.basename(r2) == bn for r2, c2 in sf.items()):
                 continue
+            # ... or every line of it is still there, in order - except a `merchants_file:` key that had no value, which the
+            # migration may fill in where it stands instead of appending a second key (nothing the user wrote is gone then)
+            import re as _re
+            empty_key = _re.compile(rb'^[ \t]*merchants_file[ \t]*:[ \t]*(null|~|""|\'\')?[ \t]*(#.*)?\r?$')
+            old_lines = [ln for ln in c.split(b'\n') if not empty_key.match(ln)]
+            if len(old_lines) < len(c.split(b'\n')):
+                def subseq(a, b):
+                    it = iter(b)
+                    return all(any(x == y for y in it) for x in a)
+                if any(c2 is not None and os.path.basename(r2) == bn and subseq([ln for ln in old_lines if ln.strip()], c2.split(b'\n'))
+                       for r2, c2 in sf.items()):
+                    continue
         lost.append(r)
     return lost
 
